@@ -671,7 +671,7 @@ package ast
 //@   trusted_ensures (err == nil) == (old($rPos) < $rEnd)
 //@   trusted_ensures err == nil && $rK[old($rPos)] == 1 ==> s == $rS[old($rPos)]
 //@   ghost_exit $rPos = ite(err == nil, $rPos + 1, $rPos)
-//@   nopanic
+//@   nopanic[C20]
 //@   ensures[C20] allocbounded: $allocated - old($allocated) <= 2 * ($consumed - old($consumed)) + 16
 //@ extern func ReadIntFromReader(r) (i, err)
 //@   nopanic
